@@ -20,6 +20,10 @@ func init() {
 			"Decides these necessary conditions; does not decide Host spelling normalisation or schedules beyond the atomic claim.",
 		Run: runC19,
 		Mutants: []Mutant{
+			{Name: "rebuild-keeps-old-entries", File: "internal/httpservice/domain_registry.go", Rule: "R-C19-5",
+				Old: "\tr.mappings = make(map[string]*models.PortMapping)\n\n\t// 重建索引\n", New: "\t// 重建索引\n"},
+			{Name: "expired-reported-as-not-found", File: "internal/httpservice/modules/domainproxy/mapping_lookup.go", Rule: "R-C19-4",
+				Old: "return nil, coreerrors.New(coreerrors.CodeForbidden, \"mapping has expired\")\n\t\t}\n\t\treturn nil, coreerrors.Newf(coreerrors.CodeUnavailable, \"mapping is not active: %s\", httpMapping.Status)", New: "return nil, coreerrors.New(coreerrors.CodeMappingNotFound, \"mapping has expired\")\n\t\t}\n\t\treturn nil, coreerrors.Newf(coreerrors.CodeUnavailable, \"mapping is not active: %s\", httpMapping.Status)"},
 			{Name: "create-data-before-claim", File: "internal/cloud/repos/http_domain_mapping_repository.go", Rule: "R-C19-1",
 				Old: "\tif !success {\n\t\t// 域名已被占用\n\t\treturn nil, coreerrors.Newf(coreerrors.CodeAlreadyExists, \"domain %s is already in use\", fullDomain)\n\t}\n", New: "\tif !success {\n\t\t_ = fullDomain\n\t}\n"},
 			{Name: "create-rollback-forgotten", File: "internal/cloud/repos/http_domain_mapping_repository.go", Rule: "R-C19-1",
